@@ -152,7 +152,7 @@ static RefEntry ref_entry(const Data& d, const std::vector<long>& pv) {
   e.feasible = lm.feasible; e.x = lm.x;
   return e;
 }
-enum { CNT_SOLVES = CNT_USER, CNT_SPANS, CNT_REFS, CNT_VALS_SKIPPED_CONTEXT, CNT_TERMINAL, CNT_MERGED, CNT_FRESH, CNT_UNFEAS, CNT_BIGCASES, CNT_ARTPARAMS, CNT_DECISIONS, CNT_LEXMINS, CNT_HANGS };
+enum { CNT_SOLVES = CNT_USER, CNT_SPANS, CNT_REFS, CNT_VALS_SKIPPED_CONTEXT, CNT_TERMINAL, CNT_MERGED, CNT_FRESH, CNT_UNFEAS, CNT_BIGCASES, CNT_ARTPARAMS, CNT_DECISIONS, CNT_LEXMINS, CNT_HANGS, CNT_SANDBOXED };
 
 static const RefTable& reference(const Data& d) {
   std::string key = ref_key(d);
@@ -211,6 +211,8 @@ static Q eval_le(const E& e, const std::vector<Q>& vals, const Data& d, std::str
   }
   return v;
 }
+// optional per-node statistics of a batch of spans: node -> (times reached, times its own constraints all held)
+static std::map<const void*, std::pair<long, long> >* NODE_STATS = 0;
 static Span span_tree(const PPL::PIP_Tree_Node* node, const Data& d, const std::vector<long>& pv) {
   Span s;
   std::vector<Q> vals(d.dim);
@@ -238,6 +240,7 @@ static Span span_tree(const PPL::PIP_Tree_Node* node, const Data& d, const std::
       bool ok = c->is_equality() ? v == 0 : c->is_strict_inequality() ? v > 0 : v >= 0;
       if (!ok) all = false;
     }
+    if (NODE_STATS && cs.begin() != cs.end()) { std::pair<long, long>& st = (*NODE_STATS)[node]; ++st.first; if (all) ++st.second; }
     if (const PPL::PIP_Decision_Node* dn = node->as_decision()) {
       const PPL::PIP_Tree_Node* ch = dn->child_node(all);
       if (dn->child_node(true) == 0 && s.defect.empty()) s.defect = "decision node without a true child";
@@ -351,6 +354,20 @@ static std::unique_ptr<PIP> build_fresh(const Data& d, bool via_ctor) {
   return p;
 }
 
+// input predicate for the big-parameter findings: the big parameter occurs in a row together with a variable whose
+// coefficient is not +-1 (the solution then needs artificial parameters that grow with the big parameter, while
+// row_sign() decides signs from the coefficient of the big parameter alone)
+static bool big_with_non_unit_coefficient(const Data& d) {
+  if (d.big < 0) return false;
+  for (size_t r = 0; r < d.rows.size(); ++r) {
+    const LE& e = CM[d.rows[r]].e;
+    if (d.big >= (int)e.a.size() || e.a[d.big] == 0) continue;
+    for (int i = 0; i < d.dim && i < (int)e.a.size(); ++i) if (!d.is_param(i) && e.a[i] != 0 && e.a[i] != 1 && e.a[i] != -1) return true;
+  }
+  return false;
+}
+static std::string hang_trigger(const Data& d) { return d.piv == 1 ? "pivot_row_strategy_max_column" : "none"; }
+
 // ------------------------------------------------------------------ guard for solves that may not terminate
 // PPL's cooperative cancellation: a CPU-time signal makes `abandon_expensive_computations` point to a throwable and the
 // main loop of PIP_Solution_Node::solve calls maybe_abandon() at every iteration.  The object is discarded afterwards.
@@ -375,7 +392,36 @@ static int guarded(const std::function<void()>& f, double cpu_s) {
   PPL::abandon_expensive_computations = 0;
   return rc;
 }
-static std::string guard_clause(int rc) { return rc == SIGPROF ? "hang" : "crash:memory-exhausted"; }
+static std::string guard_clause(int rc) { return rc == SIGPROF ? "hang" : rc == 1077 ? "crash:memory-exhausted" : std::string("crash:") + signame(rc); }
+// Hard guard: the call is first executed in a forked child under a CPU budget (the child is killed by SIGPROF when it
+// is exhausted).  Used where a loop without cancellation points was met: Tableau::is_better_pivot, reached only under
+// PIVOT_ROW_STRATEGY_MAX_COLUMN.  Returns 0 if the child finished.
+static double SANDBOX_S = 0.3;
+static int sandbox(const std::function<void()>& f, double cpu_s) {
+  fflush(stdout); fflush(stderr);
+  pid_t pid = fork();
+  if (pid < 0) { perror("fork"); _exit(3); }
+  if (pid == 0) {
+    alarm(0);
+    signal(SIGPROF, SIG_DFL);
+    struct rlimit rl; rl.rlim_cur = rl.rlim_max = 0; setrlimit(RLIMIT_CORE, &rl);
+    struct itimerval tv; memset(&tv, 0, sizeof tv);
+    tv.it_value.tv_sec = (long)cpu_s; tv.it_value.tv_usec = (long)((cpu_s - (long)cpu_s) * 1e6);
+    setitimer(ITIMER_PROF, &tv, 0);
+    try { f(); } catch (const std::bad_alloc&) { _exit(77); } catch (...) { _exit(78); }
+    _exit(0);
+  }
+  int st = 0;
+  while (waitpid(pid, &st, 0) < 0 && errno == EINTR) {}
+  if (WIFEXITED(st) && WEXITSTATUS(st) == 0) return 0;
+  if (WIFSIGNALED(st)) return WTERMSIG(st);
+  return 1000 + WEXITSTATUS(st);
+}
+// cooperative guard everywhere, hard guard in addition where needed
+static int run_solve_guarded(bool hard, const std::function<void()>& probe, const std::function<void()>& real, bool confirm) {
+  if (hard) { count(CNT_SANDBOXED); int rc = sandbox(probe, confirm ? SANDBOX_S * 10 : SANDBOX_S); if (rc) return rc; }
+  return guarded(real, confirm ? CONFIRM_S : GUARD_S);
+}
 
 // ------------------------------------------------------------------ triggers (predicates over the final data)
 // "feasible only for small parameter values": some context-satisfying valuation of the window is feasible, and every
@@ -392,18 +438,43 @@ static bool some_parameter_bounded(const Data& d) {
   return false;
 }
 
-static std::string hang_trigger(const Data& d) {
-  return std::string("strategy_") + (d.cut == 0 ? "first" : d.cut == 1 ? "deepest" : "all") + "_" + (d.piv == 0 ? "first" : "max_column");
+
+// Symptom predicate on the returned tree: some node is reached for valuations of the enlarged window {0..12}^k but its
+// own condition holds for none of them -- the algorithm only splits on conditions that are compatible with the context,
+// so such a node means that a test above it was lost or replaced (PIP_Solution_Node::solve, "SWAP BRANCHES" exit).
+static bool tree_has_dead_condition(const PPL::PIP_Tree_Node* root, const Data& d) {
+  std::map<const void*, std::pair<long, long> > stats;
+  NODE_STATS = &stats;
+  std::vector<int> ps; for (int i = 0; i < d.dim; ++i) if (d.is_param(i) && i != d.big) ps.push_back(i);
+  std::vector<long> cur(d.dim, 0); if (d.big >= 0) cur[d.big] = BIG_M[0];
+  long hi = ps.size() <= 2 ? 12 : 6;
+  std::function<void(size_t)> rec = [&](size_t k) {
+    if (k == ps.size()) { span_tree(root, d, cur); return; }
+    for (long x = 0; x <= hi; ++x) { cur[ps[k]] = x; rec(k + 1); }
+  };
+  rec(0);
+  NODE_STATS = 0;
+  for (std::map<const void*, std::pair<long, long> >::iterator i = stats.begin(); i != stats.end(); ++i) if (i->second.first > 0 && i->second.second == 0) return true;
+  return false;
 }
 
 // ------------------------------------------------------------------ the oracle for one solved problem
 struct Reporter {
   std::string input; bool live;
-  void viol(const std::string& site, const std::string& clause, const std::string& trig, const std::string& obs, const std::string& exp, const std::string& detail = "") const {
+  std::string override_none, override_all;     // state-based triggers of the incremental exploration
+  Reporter() : live(true) {}
+  void viol(const std::string& site, const std::string& clause, const std::string& trig0, const std::string& obs, const std::string& exp, const std::string& detail = "") const {
     if (!live) return;
+    std::string trig = !override_all.empty() ? override_all : (trig0 == "none" && !override_none.empty()) ? override_none : trig0;
     count(CNT_VIOL);
-    if (!violcap().admit(site + "|" + clause + "|" + trig)) return;
-    report_violation(site, clause, trig, input, obs, exp, detail);
+    // one finding group for the incremental-update family: the sub-check that failed goes to the detail
+    std::string st = site, cl = clause, det = detail;
+    if (trig == "resolve_over_solution_tree_not_in_initial_basis") {
+      size_t q = st.find("(incremental)"); if (q != std::string::npos) st = st.substr(0, q);
+      cl = "incremental:wrong-answer"; det = "failed check: " + clause + ". " + detail;
+    }
+    if (!violcap().admit(st + "|" + cl + "|" + trig)) return;
+    report_violation(st, cl, trig, input, obs, exp, det);
   }
 };
 static std::string val_str(const Data& d, const std::vector<long>& pv) {
@@ -484,6 +555,8 @@ static bool judge(const PIP& p, int status, const Data& d, const Reporter& rp, c
       std::string dt = det[0];
       if (status == 1) dt += "tree: " + tree_text(p);
       int b0 = 0; while (clause[b0].empty()) ++b0;
+      if (trig[b0] == "none" && big_with_non_unit_coefficient(d)) trig[b0] = "big_parameter_in_row_with_non_unit_variable_coefficient";
+      if (status == 1 && trig[b0] == "none" && clause[b0].compare(0, 5, "tree:") == 0 && tree_has_dead_condition(root, d)) trig[b0] = "tree_node_condition_never_true_when_reached";
       rp.viol(site, clause[b0], trig[b0], obs[b0], exp[b0], dt);
       ok = false;
       break;          // one finding per judged problem: the first valuation that fails
@@ -542,16 +615,18 @@ static void run_fresh_item(long long item, long long sub_start) {
     int st = 0;
     Reporter rp; rp.live = true;
     rp.input = J().str("mode", "fresh").str("built_by", ctor ? "PIP_Problem(dim, first, last, params)" : "PIP_Problem(dim) + add_to_parameter_space_dimensions + add_constraint...").raw("problem", data_json(d)).done();
-    int rc = guarded([&]() { st = p->solve() == PPL::OPTIMIZED_PIP_PROBLEM ? 1 : 0; }, GUARD_S);
+    bool ctor_b = ctor != 0;
+    int rc = run_solve_guarded(d.piv == 1, [&]() { std::unique_ptr<PIP> t = build_fresh(d, ctor_b); t->solve(); },
+                               [&]() { st = p->solve() == PPL::OPTIMIZED_PIP_PROBLEM ? 1 : 0; }, false);
     count(CNT_SOLVES); count(CNT_TRANS); count(CNT_FRESH); count(CNT_STATES);
     if (rc) {
       count(CNT_HANGS);
       std::string trig = hang_trigger(d);
       if (violcap().admit("hang|" + guard_clause(rc) + "|" + trig)) {
         // re-run alone with a much larger budget before calling it a hang
-        std::unique_ptr<PIP> q = build_fresh(d, ctor != 0);
-        int rc2 = guarded([&]() { q->solve(); }, CONFIRM_S);
-        if (rc2) report_violation("PIP_Problem::solve", guard_clause(rc2), trig, rp.input, guard_clause(rc2) + " (no answer within " + std::to_string(CONFIRM_S) + " s CPU)", "an answer");
+        std::unique_ptr<PIP> q = build_fresh(d, ctor_b);
+        int rc2 = run_solve_guarded(d.piv == 1, [&]() { std::unique_ptr<PIP> t = build_fresh(d, ctor_b); t->solve(); }, [&]() { q->solve(); }, true);
+        if (rc2) report_violation("PIP_Problem::solve", guard_clause(rc2), trig, rp.input, guard_clause(rc2) + " (no answer within " + std::to_string(d.piv == 1 ? SANDBOX_S * 10 : CONFIRM_S) + " s CPU, alone)", "an answer");
       }
       continue;
     }
@@ -589,7 +664,7 @@ static Key key_of(const std::string& s) {
   for (size_t i = 0; i < s.size(); ++i) { k.a = (k.a ^ (unsigned char)s[i]) * 1099511628211ULL; k.b = (k.b + (unsigned char)s[i]) * 0x100000001b3ULL; k.b ^= k.b >> 29; }
   return k;
 }
-struct Node { std::unique_ptr<PIP> p; Data d; int rec; };
+struct Node { std::unique_ptr<PIP> p; Data d; int rec; bool dirty; };   // dirty: the data changed since the last judged solve (tracked by the harness, not read from the object)
 
 // Fresh problem from the same final data (same strategies): must give the same answers on every valuation; since both
 // are compared with the reference this is implied, the explicit comparison only labels the finding.
@@ -600,14 +675,30 @@ static bool fresh_is_right(const Data& d) {
   if (it != FRESHOK.end()) return it->second != 0;
   Data dd = d; std::sort(dd.rows.begin(), dd.rows.end()); dd.rows.erase(std::unique(dd.rows.begin(), dd.rows.end()), dd.rows.end());
   std::unique_ptr<PIP> p = build_fresh(dd, true);
-  int st = p->solve() == PPL::OPTIMIZED_PIP_PROBLEM ? 1 : 0;
+  int st = 0;
+  int rc = run_solve_guarded(dd.piv == 1, [&]() { std::unique_ptr<PIP> t = build_fresh(dd, true); t->solve(); }, [&]() { st = p->solve() == PPL::OPTIMIZED_PIP_PROBLEM ? 1 : 0; }, false);
   count(CNT_FRESH);
+  if (rc) { FRESHOK[key] = 0; return false; }
   Reporter rp; rp.live = true; rp.input = J().str("mode", "fresh-from-final-data").raw("problem", data_json(dd)).done();
-  bool ok = judge(*p, st, dd, rp, "PIP_Problem::solve(fresh)");
+  bool ok = judge(*p, st, dd, rp, "PIP_Problem::solve");
   FRESHOK[key] = ok ? 1 : 0;
   return ok;
 }
 
+// State predicate for the incremental findings: the problem already owns a solution tree that is more than a bare
+// solution node (decision nodes, node constraints or artificial parameters) and is re-solved after a change.
+// update_tableau() then adds the new rows / columns to tableaux that were pivoted and cut, and the constraints stored
+// in the nodes keep the old numbering of the artificial parameters.
+static bool nontrivial_tree(const PIP& p) {
+  const PPL::PIP_Tree_Node* n = p.current_solution;
+  if (n == 0) return false;
+  if (n->as_decision() != 0) return true;
+  if (n->art_parameter_count() != 0 || n->constraints().begin() != n->constraints().end()) return true;
+  // a bare solution node: has it left the initial basis (some variable defined by a tableau row)?
+  const PPL::PIP_Solution_Node* sn = n->as_solution();
+  for (size_t i = 0; sn != 0 && i < sn->tableau.s.num_columns() && i < sn->basis.size(); ++i) if (!sn->basis[i]) return true;
+  return false;
+}
 static void run_incr_item(long long item, long long sub_start) {
   const Item& it = ITEMS[item];
   RECS.clear();
@@ -617,7 +708,7 @@ static void run_incr_item(long long item, long long sub_start) {
   std::vector<Node> frontier, next;
   int solve_op = -1; for (size_t i = 0; i < OPS.size(); ++i) if (OPS[i].k == SOLVE) solve_op = (int)i;
   {
-    Node n; n.d = INITS[it.init].d; n.p = build_fresh(n.d, true); RECS.push_back(Rec{-1, -1}); n.rec = 0;
+    Node n; n.d = INITS[it.init].d; n.p = build_fresh(n.d, true); RECS.push_back(Rec{-1, -1}); n.rec = 0; n.dirty = true;
     seen.insert(key_of(dump_of(*n.p)));
     frontier.push_back(std::move(n));
   }
@@ -633,7 +724,7 @@ static void run_incr_item(long long item, long long sub_start) {
         int opi = terminal ? solve_op : (int)k;
         if (depth == 1 && it.first_op >= 0 && opi != it.first_op) continue;
         if (!enabled(OPS[opi], src.d, *src.p)) continue;
-        if (terminal && src.p->status != PIP::PARTIALLY_SATISFIABLE) continue;       // already judged when it was solved
+        if (terminal && !src.dirty) continue;       // already judged when it was solved
         long long my = sub++;
         if (only >= 0 && my > only) return;
         if (is_bad(item, my)) continue;
@@ -653,7 +744,8 @@ static void run_incr_item(long long item, long long sub_start) {
         Reporter rp; rp.live = live;
         int rc = 0;
         try {
-          if (solve_like(o.k)) rc = guarded([&]() { out = apply(c, d1, o); }, GUARD_S);
+          if (solve_like(o.k)) rc = run_solve_guarded(src.d.piv == 1 && src.dirty,
+                                                      [&]() { std::unique_ptr<PIP> t(new PIP(*src.p)); Data dt = src.d; apply(t, dt, o); }, [&]() { out = apply(c, d1, o); }, false);
           else out = apply(c, d1, o);
         }
         catch (const std::exception& e) {
@@ -668,17 +760,21 @@ static void run_incr_item(long long item, long long sub_start) {
             std::string trig = hang_trigger(d1);
             if (violcap().admit("hang|" + guard_clause(rc) + "|" + trig)) {
               std::unique_ptr<PIP> q(new PIP(*src.p)); Data dq = src.d;
-              int rc2 = guarded([&]() { apply(q, dq, o); }, CONFIRM_S);
-              if (rc2) report_violation(op_site(o.k), guard_clause(rc2), trig, input_json(it.init, src.rec, opi, d1), guard_clause(rc2) + " (no answer within " + std::to_string(CONFIRM_S) + " s CPU)", "an answer");
+              int rc2 = run_solve_guarded(src.d.piv == 1, [&]() { std::unique_ptr<PIP> t(new PIP(*src.p)); Data dt = src.d; apply(t, dt, o); }, [&]() { apply(q, dq, o); }, true);
+              if (rc2) report_violation(op_site(o.k), guard_clause(rc2), trig, input_json(it.init, src.rec, opi, d1), guard_clause(rc2) + " (no answer within " + std::to_string(src.d.piv == 1 ? SANDBOX_S * 10 : CONFIRM_S) + " s CPU, alone)", "an answer");
             }
           }
           continue;
         }
         bool good = true;
-        if (!c->OK()) { rp.input = input_json(it.init, src.rec, opi, d1); rp.viol(std::string("PIP_Problem::") + op_name(o).substr(0, op_name(o).find('(')), "invariant:OK()", "none", "OK() false", "OK() true"); good = false; }
+        if (!c->OK()) {
+          rp.input = input_json(it.init, src.rec, opi, d1);
+          std::string tr = (o.k == ASSIGN && src.p->current_solution != 0) ? "assigned_from_problem_with_solution_tree" : "none";
+          rp.viol(std::string("PIP_Problem::") + op_name(o).substr(0, op_name(o).find('(')), "invariant:OK()", tr, "OK() false (nodes of the tree are not owned by the assigned object)", "OK() true");
+          good = false; }
         if (good && solve_like(o.k)) {
           if (live) count(CNT_SOLVES);
-          if (src.p->status == PIP::PARTIALLY_SATISFIABLE) {     // otherwise the cached verdict was judged before
+          if (src.dirty) {     // otherwise this very verdict was judged before
             rp.input = input_json(it.init, src.rec, opi, d1);
             // label: is a fresh problem from the same data right?
             Reporter probe; probe.live = false;
@@ -686,6 +782,7 @@ static void run_incr_item(long long item, long long sub_start) {
             if (!inc_ok) {
               bool fr = fresh_is_right(d1);
               Reporter r2 = rp;
+              if (nontrivial_tree(*src.p)) { if (fr) r2.override_all = "resolve_over_solution_tree_not_in_initial_basis"; else r2.override_none = "resolve_over_solution_tree_not_in_initial_basis"; }
               if (fr) r2.input = input_json(it.init, src.rec, opi, d1).substr(0, input_json(it.init, src.rec, opi, d1).size() - 1) + ",\"fresh_problem_from_same_data\":\"right\"}";
               // re-judge with reporting; the site tells incremental-only defects apart
               judge(*c, out.status, d1, r2, fr ? op_site(o.k) + "(incremental)" : op_site(o.k));
@@ -699,6 +796,7 @@ static void run_incr_item(long long item, long long sub_start) {
         if (live) count(CNT_STATES);
         RECS.push_back(Rec{src.rec, opi});
         Node n; n.p = std::move(c); n.d = d1; n.rec = (int)RECS.size() - 1;
+        n.dirty = solve_like(o.k) ? false : (o.k == COPY || o.k == ASSIGN) ? src.dirty : true;
         next.push_back(std::move(n));
       }
       src.p.reset();
@@ -732,10 +830,76 @@ static std::string doc_example_selftest() {
   return "";
 }
 
-// ------------------------------------------------------------------ replay
+// ------------------------------------------------------------------ replay of one recorded violation
+static std::string json_field(const std::string& t, const std::string& k, size_t from = 0) {     // raw text after "k":
+  size_t p = t.find("\"" + k + "\"", from); if (p == std::string::npos) return "";
+  p = t.find(':', p); if (p == std::string::npos) return "";
+  ++p; while (p < t.size() && t[p] == ' ') ++p;
+  if (t[p] == '[') { size_t e = t.find(']', p); return t.substr(p, e - p + 1); }
+  if (t[p] == '"') { size_t e = t.find('"', p + 1); return t.substr(p + 1, e - p - 1); }
+  size_t e = t.find_first_of(",}", p); return t.substr(p, e - p);
+}
+static std::vector<std::string> json_strings(const std::string& arr) {
+  std::vector<std::string> out; size_t p = 0;
+  while ((p = arr.find('"', p)) != std::string::npos) { size_t e = arr.find('"', p + 1); out.push_back(arr.substr(p + 1, e - p - 1)); p = e + 1; }
+  return out;
+}
+static bool parse_problem(const std::string& t, size_t from, Data& d) {
+  d = Data();
+  d.dim = atoi(json_field(t, "dim", from).c_str());
+  std::vector<std::string> ps = json_strings(json_field(t, "parameters", from));
+  for (size_t i = 0; i < ps.size(); ++i) d.params |= 1u << (ps[i][0] - 'A');
+  std::string big = json_field(t, "big_parameter", from); d.big = big == "none" || big.empty() ? -1 : big[0] - 'A';
+  std::vector<std::string> rows = json_strings(json_field(t, "constraints", from));
+  for (size_t i = 0; i < rows.size(); ++i) { int f = -1; for (size_t r = 0; r < CM.size(); ++r) if (CM[r].str() == rows[i]) f = (int)r; if (f < 0) return false; d.rows.push_back(f); }
+  std::string cut = json_field(t, "cutting", from), piv = json_field(t, "pivot_row", from);
+  for (int i = 0; i < 3; ++i) if (cut == CUT_NAME[i]) d.cut = i;
+  for (int i = 0; i < 2; ++i) if (piv == PIV_NAME[i]) d.piv = i;
+  return true;
+}
+static void show_answers(const PIP& p, int status, const Data& d) {
+  printf("status: %s\n", status ? "OPTIMIZED_PIP_PROBLEM" : "UNFEASIBLE_PIP_PROBLEM");
+  if (status) printf("tree:\n%s", tree_text(p).c_str());
+  const RefTable& rt = reference(d);
+  int nb = d.big >= 0 ? 3 : 1;
+  for (int b = 0; b < nb; ++b) for (size_t i = 0; i < rt.vals.size(); ++i) {
+    const RefEntry& re = rt.e[b][i];
+    std::vector<long> pv = rt.vals[i].p; if (d.big >= 0) pv[d.big] = BIG_M[b];
+    std::string mine = !re.context_ok ? "(context violated: not judged)" : re.feasible ? zvec_str(re.x) : "_|_";
+    std::string theirs = "_|_";
+    if (status) { Span s = span_tree(p.solution(), d, pv); theirs = !s.defect.empty() ? "MALFORMED: " + s.defect : s.bottom ? "_|_" : ref::vec_str(s.x); }
+    bool same = !re.context_ok || (re.feasible ? (theirs == ref::vec_str(std::vector<Q>(re.x.begin(), re.x.end()))) : theirs == "_|_");
+    printf("  %-16s tree: %-28s reference: %-20s %s\n", val_str(d, pv).c_str(), theirs.c_str(), mine.c_str(), same ? "" : "<== MISMATCH");
+  }
+}
 static int replay(const std::string& path) {
   std::ifstream f(path.c_str()); std::stringstream ss; ss << f.rdbuf(); std::string t = ss.str();
-  fprintf(stderr, "replay: re-run the recorded problem by hand from the 'input' object (constraints / parameters / strategies are spelled out):\n%s\n", t.c_str());
+  size_t pin = t.find("\"input\"");
+  std::string mode = json_field(t, "mode", pin == std::string::npos ? 0 : pin);
+  if (mode == "incremental") {
+    size_t pi = t.find("\"init_problem\"");
+    Data d; if (pi == std::string::npos || !parse_problem(t, pi, d)) { fprintf(stderr, "replay: cannot parse the initial problem\n"); return 2; }
+    std::unique_ptr<PIP> p = build_fresh(d, true);
+    printf("initial problem: %s\n", data_json(d).c_str());
+    std::string arr = json_field(t, "ops", pi); std::vector<int> ops; std::stringstream as(arr); std::string tok;
+    while (std::getline(as, tok, ',')) { size_t q = tok.find_first_of("0123456789"); if (q != std::string::npos) ops.push_back(atoi(tok.c_str() + q)); }
+    int last_status = -1;
+    for (size_t i = 0; i < ops.size(); ++i) {
+      const Op& o = OPS[ops[i]];
+      printf("  %s\n", op_name(o).c_str()); fflush(stdout);
+      Outcome out = apply(p, d, o);
+      if (solve_like(o.k)) { last_status = out.status; printf("    -> %s\n", out.status ? "OPTIMIZED" : "UNFEASIBLE"); }
+    }
+    printf("final data: %s\n", data_json(d).c_str());
+    if (last_status >= 0) show_answers(*p, last_status, d);
+    return 0;
+  }
+  size_t pp = t.find("\"problem\"");
+  Data d; if (pp == std::string::npos || !parse_problem(t, pp, d)) { fprintf(stderr, "replay: cannot parse the problem\n"); return 2; }
+  printf("problem: %s\n", data_json(d).c_str()); fflush(stdout);
+  std::unique_ptr<PIP> p = build_fresh(d, true);
+  int st = p->solve() == PPL::OPTIMIZED_PIP_PROBLEM ? 1 : 0;
+  show_answers(*p, st, d);
   return 0;
 }
 
@@ -751,14 +915,19 @@ int main(int argc, char** argv) {
   if (!ARGS.replay.empty()) return replay(ARGS.replay);
   { std::string msg; int fl = ref::milp_selftest(&msg);
     if (fl) { sink().line(J().str("t", "error").str("msg", "R.MILP self-test failed: " + msg).done()); return 2; }
+    // The class documentation's example, spanned by the code below and compared with plain enumeration.  On the
+    // unchanged library it agrees on all 81 valuations (that validates the spanning code); a disagreement is therefore a
+    // defect of the library on a documented example, reported as such, and the exploration goes on.
     std::string e = doc_example_selftest();
-    if (!e.empty()) { sink().line(J().str("t", "error").str("msg", "spanning self-test failed: " + e).done()); return 2; } }
+    if (!e.empty()) report_violation("PIP_Problem::solve", "documentation-example", "none", J().str("mode", "documentation-example").str("problem", "3*j >= -2*i+8, j <= 4*i-4, j <= m, i <= n; parameters n, m").done(), e, "the lexicographic minimum found by enumeration"); }
   BAD = (BadList*)mmap(0, sizeof(BadList), PROT_READ | PROT_WRITE, MAP_SHARED | MAP_ANONYMOUS, -1, 0); BAD->n = 0;
   CRASH = (CrashInfo*)mmap(0, sizeof(CrashInfo) * 64, PROT_READ | PROT_WRITE, MAP_SHARED | MAP_ANONYMOUS, -1, 0);
   // layouts: every choice of the parameter set with <= 2 variables and <= 2 parameters, dimension 1..4
+  int fresh_maxdim = atoi(ARGS.opt("--maxdim", "4").c_str()), fresh_mindim = atoi(ARGS.opt("--mindim", "1").c_str());
   for (int dim = 1; dim <= MAXDIM; ++dim) for (unsigned ps = 0; ps < (1u << dim); ++ps) {
     int np = __builtin_popcount(ps), nv = dim - np;
     if (nv > 2 || np > 2) continue;
+    if (mode == "fresh" && (dim > fresh_maxdim || dim < fresh_mindim)) continue;
     LAYOUTS.push_back(Layout{dim, ps, -1});
   }
   size_t n_plain = LAYOUTS.size();
@@ -767,6 +936,7 @@ int main(int argc, char** argv) {
     for (int dim = 2; dim <= MAXDIM; ++dim) for (unsigned ps = 1; ps < (1u << dim); ++ps) {
       int np = __builtin_popcount(ps), nv = dim - np;
       if (nv < 1 || nv > 2 || np > 2) continue;
+      if (mode == "fresh" && (dim > fresh_maxdim || dim < fresh_mindim)) continue;
       int last = 31 - __builtin_clz(ps);
       LAYOUTS.push_back(Layout{dim, ps, last});
     }
@@ -793,7 +963,7 @@ int main(int argc, char** argv) {
       if (n > 1 && std::__gcd(stride, n) == 1) FRESH.swap(sh); }
     nitems = (long long)((FRESH.size() + FRESH_BATCH - 1) / FRESH_BATCH);
     fn = [&](long long item, long long sub_start) { run_fresh_item(item, sub_start); };
-    bound = "fresh problems: " + std::to_string(LAYOUTS.size()) + " layouts (dimension <= 4, <= 2 variables, <= 2 parameters" + (with_big ? ", plus the last parameter as big parameter" : "") +
+    bound = "fresh problems: " + std::to_string(LAYOUTS.size()) + " layouts (dimension " + std::to_string(fresh_mindim) + ".." + std::to_string(fresh_maxdim) + ", <= 2 variables, <= 2 parameters" + (with_big ? ", plus the last parameter as big parameter" : "") +
             "), every row set of size <= " + std::to_string(K) + " of a menu of " + std::to_string(CM.size()) + " rows (size <= 2 with a big parameter), 3 cutting x 2 pivot-row strategies, built by the constructor (and once by add_constraint); parameter window {0.." + std::to_string(WINDOW_HI) + "}^k, big parameter at 64/129/260";
   } else {
     // initial problems for the histories: every plain layout with no row, plus a few one-row problems
@@ -818,7 +988,7 @@ int main(int argc, char** argv) {
     std::string clause = sig == SIGALRM ? "hang" : std::string("crash:") + signame(sig);
     if (ci.mode == 0) {
       std::string desc(ci.desc);
-      std::string trig = "none";
+      std::string trig = desc.find("PIVOT_ROW_STRATEGY_MAX_COLUMN") != std::string::npos ? "pivot_row_strategy_max_column" : "none";
       report_violation("PIP_Problem::solve", clause, trig, J().str("mode", "fresh").raw("problem", desc.empty() ? "{}" : desc).num("item", item).num("sub", sub).done(), signame(sig), "an answer");
     } else {
       std::vector<std::string> names, idx;
@@ -830,7 +1000,8 @@ int main(int argc, char** argv) {
   if (getenv("VERIF_PROFILE")) pool().at_worker_exit = []() { for (auto& kv : PROF) fprintf(stderr, "PROF %-30s %8.3f %8ld\n", kv.first.c_str(), kv.second.first, kv.second.second); };
   if (!ARGS.opt("--single-item").empty()) { fn(atoll(ARGS.opt("--single-item").c_str()), 0); fprintf(stderr, "states=%lld trans=%lld solves=%lld spans=%lld viol=%lld\n", counter(CNT_STATES), counter(CNT_TRANS), counter(CNT_SOLVES), counter(CNT_SPANS), counter(CNT_VIOL)); return 0; }
   GUARD_S = atof(ARGS.opt("--guard-s", "0.05").c_str()); CONFIRM_S = atof(ARGS.opt("--confirm-s", "1.0").c_str());
-  int step_timeout = atoi(ARGS.opt("--step-timeout", "20").c_str());
+  violcap().cap = atoi(ARGS.opt("--cap", "5").c_str());
+  int step_timeout = atoi(ARGS.opt("--step-timeout", "10").c_str());
   pool().run(nitems, ARGS.jobs, fn, cf, ARGS, step_timeout);
   bool complete = counter(CNT_SKIPPED) == 0 && counter(CNT_REFCRASH) == 0;
   std::vector<std::string> samples;
@@ -840,7 +1011,7 @@ int main(int argc, char** argv) {
   J extra; extra.str("mode", mode).num("items", nitems).num("solves_judged", counter(CNT_SOLVES)).num("tree_spans", counter(CNT_SPANS)).num("reference_tables", counter(CNT_REFS)).num("reference_lexmins", counter(CNT_LEXMINS))
     .num("valuations_skipped_context_violated", counter(CNT_VALS_SKIPPED_CONTEXT)).num("unfeasible_verdicts", counter(CNT_UNFEAS)).num("big_parameter_cases", counter(CNT_BIGCASES))
     .num("artificial_parameters_evaluated", counter(CNT_ARTPARAMS)).num("decision_nodes_traversed", counter(CNT_DECISIONS)).num("fresh_problems", counter(CNT_FRESH))
-    .num("solves_abandoned_as_hang", counter(CNT_HANGS)).num("terminal_layer_solves", counter(CNT_TERMINAL)).num("transitions_merged_by_state_key", counter(CNT_MERGED)).num("oracle_comparisons", counter(CNT_CHECKS))
+    .num("solves_abandoned_as_hang", counter(CNT_HANGS)).num("solves_run_in_forked_sandbox_first", counter(CNT_SANDBOXED)).num("terminal_layer_solves", counter(CNT_TERMINAL)).num("transitions_merged_by_state_key", counter(CNT_MERGED)).num("oracle_comparisons", counter(CNT_CHECKS))
     .num("violation_records_before_cap", counter(CNT_VIOL)).num("items_skipped_by_deadline", counter(CNT_SKIPPED)).num("cases_skipped_oracle_resource_limit", counter(CNT_REFCRASH));
   J st; st.str("t", "stats").num("states", std::max<long long>(1, counter(CNT_STATES))).num("transitions", std::max<long long>(1, counter(CNT_TRANS)))
     .num("traces_validated_against_impl", counter(CNT_TRANS)).boolean("exhaustive", complete).str("bound", bound)
